@@ -680,7 +680,12 @@ impl InvalidLiquidToken<'_> {
         // Reparses from the line where invalid liquid started, in order
         // to raise the error.
         let mut error = match LiquidParser::parse(Rule::LiquidFile, &text) {
-            Ok(_) => panic!("`LiquidParser::parse` should fail in InvalidLiquidTokens."),
+            // The re-parse starts at the beginning of the token's line; that prefix can change how
+            // the text tokenizes (e.g. an unterminated string on the previous line), so the
+            // re-parse may succeed. Report the invalid token itself in that case.
+            Ok(_) => {
+                return error_from_pair(self.element, "Invalid liquid syntax".to_owned()).into_err();
+            }
             Err(error) => error,
         };
 
